@@ -541,15 +541,32 @@ def r8_comparison_covers_everything(ctx):
     whole_content_hashed(ctx, 'C10.R8')
 
 
+SORTS = {'sort', 'sort_by', 'sort_by_key', 'sort_unstable', 'sort_unstable_by', 'sort_unstable_by_key', 'sort_by_cached_key'}
+
+
+def _sorted_after(b, defs, start_local):
+    """the value in `start_local` (an iterator over a hash container) is collected into a Vec that is sorted before anything else looks at it:
+    -> the block of the sort call, or None"""
+    der = forward_derived(b, {start_local}, defs, through_calls=True)
+    for bb, t in b.calls():
+        m = (callee(t) or '').split('::')[-1]
+        if m in SORTS and t['args']:
+            q = op_place(t['args'][0])
+            if q is None:
+                continue
+            sl, locs = backward_slice(b, q['l'], defs, through_calls=True)
+            if locs & der:
+                return bb
+    return None
+
+
 DOC_LAYER = ('rustdoc_processor', 'rustdoc_resolver', 'rustdoc_ir', 'rustdoc_ext', 'pavexc_annotations', 'pavexc_attr_parser')
 # order-sensitive iterations over randomly seeded hash containers in the documentation layer: (crate, function suffix) -> (sites, reason)
 DOC_REVIEWED = {
     ('rustdoc_processor', 'indexing::re_exports::ExternalReExports::iter'): (1,
         'hands the re-exports out in hash order; every consumer is reviewed: pavexc `register_imported_components` (C10.R1 table, `find`/`any` '
-        'on a predicate that identifies one re-export) and `Crate::get_item_id_by_path`, whose loop is decided by the clause below'),
-    ('rustdoc_processor', 'queries::Crate::index'): (1,
-        'fills import_path2id "first one wins" per path; two items share an import path only across namespaces (a module and a function of the same '
-        'name), and pavexc resolves paths of one namespace at a time by the kind it expects. Not demonstrated either way: recorded as a caveat'),
+        'on a predicate that identifies one re-export) and `Crate::get_item_id_by_path`, which sorts them (most specific prefix first) before it '
+        'looks behind any — both decided by the clauses below'),
     ('rustdoc_resolver', 'resolve_type::skip_default'): (1, '`find` on a predicate that identifies the one item whose canonical path is alloc::alloc::Global'),
     ('rustdoc_resolver', '<GenericBindings as core::fmt::Debug>::fmt'): (3, 'Debug output only'),
     ('rustdoc_ir', 'generics_equivalence::UnassignedIdGenerator::into_sorted_iter'): (1, 'collected into a Vec that is sorted by id on the next line'),
@@ -593,6 +610,11 @@ def r9_doc_layer_hash_order(ctx):
                 if terms and not sens:
                     ctx.ob('C10.R9', 'site|%s|%s|%s' % (crate, fn, m), True, b.loc(bb, t), 'consumed only by order-insensitive sinks')
                     continue
+                if sens and all(x.startswith('collect<alloc::vec::Vec') for x in sens) and not t['dest'].get('p'):
+                    sb_ = _sorted_after(b, Defs(b), t['dest']['l'])
+                    if sb_ is not None:
+                        ctx.ob('C10.R9', 'site|%s|%s|%s' % (crate, fn, m), True, b.loc(bb, t), 'collected into a Vec that is sorted (%s) before it is used' % b.loc(sb_))
+                        continue
                 rev = DOC_REVIEWED.get((crate, fn))
                 seen[(crate, fn)] = seen.get((crate, fn), 0) + 1
                 ctx.ob('C10.R9', 'site|%s|%s|%s' % (crate, fn, m), rev is not None, b.loc(bb, t),
@@ -618,6 +640,11 @@ def r9_doc_layer_hash_order(ctx):
     der = forward_derived(b, {its[0][1]['dest']['l']}, defs, through_calls=True)
     nexts = [(bb, t) for bb, t in b.calls() if (callee(t) or '').endswith('Iterator::next') and op_place(t['args'][0]) is not None and op_place(t['args'][0])['l'] in der
              and 'ExternalReExport' in (t['aty'][0] if t.get('aty') else '')]
+    sb_ = _sorted_after(b, defs, its[0][1]['dest']['l'])
+    ok_sorted = sb_ is not None and bool(nexts) and all(b.dominates(sb_, nb) for nb, _ in nexts)
+    ctx.ob('C10.R9', 're-exports-visited-in-a-fixed-order', ok_sorted, b.loc(sb_) if sb_ is not None else b.loc(its[0][0], its[0][1]),
+           'the re-exports handed out in hash order are collected and sorted before the loop that looks behind them: %s (a named re-export that shadows a glob '
+           're-export both lead to an item: which one answered depended on the hash seed — 143 / 113 of 256 identical runs, repaired in c114d4e)' % ok_sorted)
     if not ctx.need('C10.R9', 'loop over the re-exports in get_item_id_by_path', nexts):
         return
     hb = nexts[0][0]
